@@ -1,8 +1,10 @@
 package main
 
 import (
+	"encoding/json"
 	"flag"
 	"fmt"
+	"strings"
 
 	"github.com/itchyny/gojq"
 
@@ -48,6 +50,104 @@ func cmdCmp(args []string) error {
 		if err := w.write(rec); err != nil {
 			return err
 		}
+	}
+	// operands that SHARE MEMORY: a prefix of an array taken as a slice of the very same array, an object compared with itself, and
+	// both nested one level down.  The order is a function of the values: sharing must not change any entry of the matrix.
+	for _, nest := range []bool{false, true} {
+		rec := vlib.M{"reps": []int{9, map[bool]int{false: 9, true: 10}[nest]}}
+		rows := make([][]int, len(uni))
+		func() {
+			defer func() {
+				if e := recover(); e != nil {
+					rec["panic"] = fmt.Sprint(e)
+				}
+			}()
+			for i, a := range uni {
+				rows[i] = make([]int, len(uni))
+				for j, b := range uni {
+					x, y := vlib.DecVal(a, vlib.RepNative), vlib.DecVal(b, vlib.RepNative)
+					if xs, ok := x.([]any); ok {
+						if ys, ok := y.([]any); ok && len(ys) <= len(xs) && gojq.Compare(xs[:len(ys)], ys) == 0 {
+							y = xs[:len(ys):len(ys)] // the same backing array
+						}
+						if ys, ok := y.([]any); ok && len(xs) < len(ys) && gojq.Compare(ys[:len(xs)], xs) == 0 {
+							x = ys[:len(xs):len(xs)]
+						}
+					} else if _, ok := x.(map[string]any); ok && gojq.Compare(x, y) == 0 {
+						y = x // the same map
+					}
+					if nest {
+						x, y = []any{x, 1}, []any{y, 1}
+					}
+					rows[i][j] = gojq.Compare(x, y)
+				}
+			}
+		}()
+		rec["rows"] = rows
+		if err := w.write(rec); err != nil {
+			return err
+		}
+	}
+	return w.close()
+}
+
+func init() { subcmds["ties"] = cmdTies }
+
+// cmdTies: cases {id, src, text}: the input is the JSON text decoded with UseNumber (so that equal numbers keep their different
+// spellings), the outputs are returned as the texts gojq.Marshal writes: which of several EQUAL elements a consumer of the
+// order picked / in which order it left them is visible through the spellings.
+func cmdTies(args []string) error {
+	fs := flag.NewFlagSet("ties", flag.ExitOnError)
+	in := fs.String("in", "", "cases ndjson")
+	out := fs.String("out", "", "results ndjson")
+	fs.Parse(args)
+	w, err := newNDWriter(*out)
+	if err != nil {
+		return err
+	}
+	err = readNDJSON(*in, func(c map[string]any) error {
+		rec := vlib.M{"id": c["id"]}
+		defer func() {
+			if e := recover(); e != nil {
+				rec["panic"] = fmt.Sprint(e)
+				w.write(rec)
+			}
+		}()
+		q, err := gojq.Parse(c["src"].(string))
+		if err != nil {
+			rec["perr"] = err.Error()
+			return w.write(rec)
+		}
+		dec := json.NewDecoder(strings.NewReader(c["text"].(string)))
+		dec.UseNumber()
+		var v any
+		if err := dec.Decode(&v); err != nil {
+			rec["perr"] = err.Error()
+			return w.write(rec)
+		}
+		outs := []any{}
+		it := q.Run(v)
+		for len(outs) < 50 {
+			x, ok := it.Next()
+			if !ok {
+				break
+			}
+			if e, ok := x.(error); ok {
+				rec["err"] = e.Error()
+				break
+			}
+			b, err := gojq.Marshal(x)
+			if err != nil {
+				rec["err"] = err.Error()
+				break
+			}
+			outs = append(outs, string(b))
+		}
+		rec["out"] = outs
+		return w.write(rec)
+	})
+	if err != nil {
+		return err
 	}
 	return w.close()
 }
